@@ -239,6 +239,8 @@ func orchestrate(prop, tier string) int {
 	}
 	var infra []string
 	var mu sync.Mutex
+	gen.TrimGenCache(6 << 30)
+	removeStaleScratch()
 	if err := gen.BuildCLI(filepath.Join(verif, "harness"), filepath.Join(outdir, "yaccgo-cli")); err != nil {
 		fmt.Println("INFRASTRUCTURE PROBLEM:", err)
 		return 2
@@ -448,4 +450,15 @@ func merge(prop, tier string, base int64, parts []Partial) (map[string]interface
 		"wall_s":      0.0,
 	}
 	return ev, viol, known, infra
+}
+
+// removeStaleScratch deletes scratch directories that earlier runs of the
+// harness left in the temp directory because they were killed (timeouts).
+func removeStaleScratch() {
+	m, _ := filepath.Glob(filepath.Join(os.TempDir(), "verif-*"))
+	for _, d := range m {
+		if fi, err := os.Stat(d); err == nil && fi.IsDir() && time.Since(fi.ModTime()) > 6*time.Hour {
+			os.RemoveAll(d)
+		}
+	}
 }
